@@ -161,6 +161,21 @@ void prop(Src& s, Ctx& ctx) {
 
     const Entry& e = E[which];
     std::string tag = std::string("C01:") + e.name;
+    // the static "peek" decoder of the same class on the same bytes (header size / next protocol without building the
+    // object): another from-buffer entry point, with the same contract
+    {
+        const std::string en = e.name;
+        try {
+#define XM(C) if (en == #C) { PDU::metadata md = Tins::C::extract_metadata(blk.ptr, n); ctx.result((uint64_t)md.header_size * 131 + (uint64_t)md.next_pdu_type); ctx.label("extract_metadata"); }
+            XM(ARP) XM(DHCP) XM(DHCPv6) XM(DNS) XM(Dot1Q) XM(Dot3) XM(EthernetII) XM(ICMP) XM(IP) XM(IPv6) XM(TCP) XM(UDP) XM(RC4EAPOL) XM(RSNEAPOL)
+#undef XM
+        } catch (const exception_base&) {
+        } catch (const PropFail&) {
+            throw;
+        } catch (const std::exception& ex) {
+            VFAIL(ctx, tag + ":extract_metadata-foreign-exception:" + demangled(typeid(ex)), e.name << "::extract_metadata on " << n << " bytes threw " << ex.what() << " input=" << hex(data));
+        }
+    }
     std::unique_ptr<PDU> pdu;
     bool rejected = false;
     try {
